@@ -3,7 +3,7 @@
    request, composed with the data path of Model/Pipeline.v and the peer's engine of Model/Engine.v).
    Time is an abstract clock; every clock read of the code is an explicit argument. *)
 From RZ Require Import Base.Prelude Model.Codec Model.Engine Model.Actor Model.Batch Model.Egress Model.Pipeline Model.Shutdown.
-From RZ Require Import Proofs.EngineProofs Proofs.ShutdownProofs.
+From RZ Require Import Proofs.EngineProofs Proofs.ShutdownProofs Model.RxSession Proofs.RxSessionProofs.
 Local Open Scope N_scope.
 
 (* A bounded LINGER bounds the shutdown: started at t0 (second clock read t0') with LINGER = d, and with
@@ -88,6 +88,15 @@ Proof. exact sys_linger_drains_pipe. Qed.
 
 (* non-vacuity: a schedule that satisfies the hypotheses of the `outside` theorem, shuts the write half
    and has transmitted two messages *)
+(* the RECEIVING session loses nothing that was transmitted before the sender closed: for an error-free stream, every
+   schedule of its read / drain arms and every segmentation, once it has seen the EOF everything decoded from the whole
+   stream has been handed to the socket's pipe (the read arm - and with it the EOF - is enabled only while
+   ingress_buffer is empty) *)
+Theorem C15_receiver_eof_loses_nothing : forall cfg t g0 input, has_err (snd (nets cfg g0 input)) = false ->
+  forall es, let s := x_run gate_empty cfg (x_new t g0 input) es in
+  x_dropped s = [] /\ (x_over s = true -> x_pipe s = deliveries (snd (nets cfg g0 input))).
+Proof. exact rx_eof_loses_nothing. Qed.
+
 Example C15_outside_nonvacuous :
   let evs := [YData (PSend ex_m2); YData (PSend ex_m3); YData PCycle; YData (PWrite 1000); YClose 5 5;
               YSessStop; YSessGone; YTick 105 105] in
